@@ -2,7 +2,7 @@
 from .. import hir
 from ..expr import strip_bb, show
 from ..flow import fields_only
-from ..guards import path_exists_with_facts
+from ..guards import path_exists_with_facts, exit_assuming
 from . import tables, errpath
 from .common import where, short, ret_err_sites, cipher_calls, self_paths
 
@@ -58,6 +58,7 @@ def is_pos_ge_len(f):
 
 def run(ctx):
     ctx.rule("state-error-exit", "each state-error exit is guarded by exactly its documented condition and constructs the documented variant")
+    ctx.rule("state-error-total", "out of phase, the documented state error is the only possible outcome: no other exit is reachable on a path consistent with the out-of-phase condition")
     ctx.rule("guards-before-effects", "no write / &mut call in the handshake read/write before the turn and finished guards have passed")
     ctx.rule("progress-on-ok", "my_turn / pattern_position written only on the Ok edge with the right value")
     ctx.rule("indicator-getters", "is_my_turn / is_handshake_finished / is_initiator return the fields / position == len")
@@ -146,6 +147,17 @@ def handshake_guards(ctx, cfg, name, guards, want_turn):
         reach = path_exists_with_facts(fn, G, oks, [fin_bad])
         ctx.ob("state-error-exit", "%s:finished-converse" % name, not reach,
                "no successful return is reachable once the pattern is exhausted" if not reach else "a successful return is reachable with pattern_position >= len", where(fn), cfg)
+    # totality: out of phase, the documented state error is the *only* possible outcome (no other error is reported first)
+    state_exits = {bi for (bi, v, s) in errs if v and v[0] == "State" and v[1] in [g[0] for g in guards]}
+    for nm, bad, what in (("turn", turn_bad, "it is not the caller's turn"), ("finished", fin_bad, "the pattern is exhausted")):
+        if bad is None:
+            continue
+        b = exit_assuming(fn, G, [bad], state_exits)
+        ctx.ob("state-error-total", "%s:%s" % (name, nm), b is None,
+               "when %s every return is one of the documented state errors" % what if b is None
+               else "when %s the call can return something other than the documented state error (value built in bb%d)" % (what, b),
+               where(fn, fn.blocks[b]["term"]) if b is not None else where(fn), cfg)
+
 
 
 def getters(ctx, cfg):
@@ -185,6 +197,17 @@ def conversions(ctx, cfg):
         ok = bool(nf) and all(any(fin_fact(f, False) for f in G.at_entry(b)) for (b, s) in nf)
         ctx.ob("conversion-gated", ty.split("::")[-1] + ":error", ok,
                "Err(State(HandshakeNotFinished)) is returned when !is_handshake_finished()" if ok else "no HandshakeNotFinished exit guarded by !is_handshake_finished()", where(fn), cfg)
+        nfact = None
+        for (e, fs) in G.edge_facts.items():
+            for f in fs:
+                if fin_fact(f, False):
+                    nfact = f
+        if nfact is not None:
+            b = exit_assuming(fn, G, [nfact], {b for (b, s) in nf})
+            ctx.ob("state-error-total", ty.split("::")[-1] + "::new", b is None,
+                   "before the handshake is finished the only outcome of the conversion is State(HandshakeNotFinished)" if b is None
+                   else "before the handshake is finished the conversion can return something other than State(HandshakeNotFinished) (bb%d)" % b,
+                   where(fn, fn.blocks[b]["term"]) if b is not None else where(fn), cfg)
         # Ok construction only when finished
         from .common import ret_ok_sites
         oks = ret_ok_sites(fn)
@@ -263,6 +286,11 @@ def oneway(ctx, cfg):
             if rf is None or of is None or not cipher_blocks:
                 ctx.ob("oneway-guard", key + ":converse", False, "one-way guard (role and is_oneway tests) or cipher use not found", where(fn), cfg)
             else:
+                b = exit_assuming(fn, G, [rf, of], {b for (b, s) in errs})
+                ctx.ob("state-error-total", key, b is None,
+                       "for the wrong role of a one-way pattern the only outcome is State(OneWay)" if b is None
+                       else "for the wrong role of a one-way pattern the call can return something other than State(OneWay) (bb%d)" % b,
+                       where(fn, fn.blocks[b]["term"]) if b is not None else where(fn), cfg)
                 reach = path_exists_with_facts(fn, G, cipher_blocks, [rf, of])
                 ctx.ob("oneway-guard", key + ":converse", not reach,
                        "the cipher is unreachable for the wrong role of a one-way pattern" if not reach else "the cipher can be used although initiator == %s and the pattern is one-way" % bad_role, where(fn), cfg)
